@@ -336,6 +336,8 @@ def _apply_ops(f, fn, v, ed, spec, ops, counters):
             ed.insert(t[ci].a, wrapper + '(')
             ed.replace(t[ci + 1].a, t[ci + 1].b, ', ')
             counters['rule7_dyn_call'] = counters.get('rule7_dyn_call', 0) + 1
+        elif kind == 'mapcollect':
+            pass      # applied by rewrite_map_collect (whole-function rule 26)
         elif kind == 'wrap':
             _, sel, before, after = op
             m2 = re.match(r'^call:([^#]+)(?:#(\d+))?$', sel)
@@ -386,6 +388,10 @@ def rewrite_dyn_calls(f, fn, ed, counters):
             callee = (a0, i + 1)
         elif t[i].k == 'id' and t[i].s in loc and t[i + 1].s == '(' and t[i - 1].s not in ('.', '::', 'fn') and t[i].s not in _KW:
             callee = (i, i + 1)
+        elif t[i].s == ')' and t[i + 1].s == '(' and t[t[i].mate - 1].k == 'id' and t[t[i].mate - 2].s == '.' and fn.i_bo < t[i].mate:
+            # the value returned by a method call is applied: `recv.method(a)(b)`
+            a0, _ = v.call_extent(t[i].mate - 1)
+            callee = (a0, i + 1)
         if callee is None: continue
         po = callee[1]; pc = t[po].mate
         ed.insert(t[callee[0]].a, 'vx_apply(')
@@ -431,3 +437,30 @@ def fold_string_concat(f, fn, ed, counters):
             re_ = (plus[k + 1] if k + 1 < n else end) - 1
             ed.insert(t[re_].b, ')')
         counters['rule9_string_concat'] = counters.get('rule9_string_concat', 0) + 1
+
+def MapCollect(k, inv, ty='_', proof='', post=''): return ('mapcollect', k, (inv, ty, proof, post))
+def rewrite_map_collect(f, fn, ed, counters, invs):
+    """rule 26: `X.into_iter().map(|v| BODY).collect()` over a vector X -> the equivalent index loop
+         { let mut vx_out = Vec::new(); let mut vx_i: usize = 0; while vx_i < X.len() <invariants> { let v = &X[vx_i]; vx_out.push(BODY); vx_i += 1; } vx_out }
+       (iterator adapters are outside Verus's subset; map+collect over a Vec is sequential push). invs: k -> loop spec text."""
+    t = f.toks; src = f.src
+    k = 0
+    i = fn.i_bo
+    while i < fn.i_bc:
+        # X . into_iter ( ) . map ( | v | BODY ) . collect ( )
+        if (t[i].k == 'id' and t[i + 1].s == '.' and t[i + 2].s == 'into_iter' and t[i + 3].s == '(' and t[i + 4].s == ')' and t[i + 5].s == '.'
+                and t[i + 6].s == 'map' and t[i + 7].s == '(' and t[i + 8].s == '|' and t[i + 9].k == 'id' and t[i + 10].s == '|'):
+            mo = i + 7; mc = t[mo].mate
+            if t[mc + 1].s == '.' and t[mc + 2].s == 'collect' and t[mc + 3].s == '(' and t[mc + 4].s == ')' and t[i - 1].s not in ('.', '::'):
+                X = t[i].s; v = t[i + 9].s
+                body = src[t[i + 11].a:t[mc - 1].b]
+                inv, ty, prf, post = invs.get(k, ('', '_', '', ''))
+                new = ('{ let mut vx_out: Vec<%s> = Vec::new(); let mut vx_i: usize = 0;\n                while vx_i < %s.len()\n%s\n                { let %s = &%s[vx_i]; %s vx_out.push(%s); vx_i += 1; }\n                %s\n                vx_out }'
+                       % (ty, X, inv.replace('@X@', X), v, X, prf.replace('@X@', X), body, post.replace('@X@', X)))
+                ed.replace(t[i].a, t[mc + 4].b, new)
+                counters['rule26_map_collect'] = counters.get('rule26_map_collect', 0) + 1
+                k += 1
+                i = mc + 5
+                continue
+        i += 1
+    return k
